@@ -102,7 +102,20 @@ class C20(Machine):
                     ex = {"post": "list"} if name == "combink" else {}
                     if args and isinstance(args[0], dict) and "obj" in args[0]:
                         ex["lst"] = args[0]["obj"]
-                        if name in ("exactsum", "dynprog") and rng.random() < 0.6:
+                        if name in ("exactsum", "dynprog") and rng.random() < 0.35:
+                            # the caller edits its list (replaces / appends an item) before asking again
+                            lo_ = args[0]["obj"]
+                            cur_ = list(meta.setdefault("cur", {}).get(str(lo_), meta["lists"][str(lo_)]))
+                            newitem = {"t": [{"s": "x%d" % len(cur_)}, rng.randint(1, 9)]}
+                            if cur_ and rng.random() < 0.5:
+                                cur_[rng.randrange(len(cur_))] = newitem
+                            else:
+                                cur_.append(newitem)
+                            meta["cur"][str(lo_)] = cur_
+                            pb.step(c, k="mutate", obj=lo_, val=cur_, tag="edit_list", role="env")
+                            tot_ = sum(i["t"][1] for i in cur_)
+                            args = [args[0], rng.choice([tot_, rng.randint(0, tot_), args[1]])]
+                        elif name in ("exactsum", "dynprog") and rng.random() < 0.6:
                             # the same list object, another target
                             items0 = meta["lists"][str(args[0]["obj"])]
                             tot0 = sum(i["t"][1] for i in items0)
@@ -139,8 +152,12 @@ class C20(Machine):
                 elif op == "nextperm":
                     l = rlist(rng)
                     args = [list(l)]
-                    pb.step(c, k="call", obj=fn["nextperm"], name="__call__", args=args, kw={}, tag="nextperm:n%d" % len(l), role="eager", fname="nextperm")
+                    nid = pb.step(c, k="call", obj=fn["nextperm"], name="__call__", args=args, kw={}, tag="nextperm:n%d" % len(l), role="eager", fname="nextperm")
                     repeat_pool.append(("nextperm", args))
+                    if rng.random() < 0.3:
+                        # the caller scribbles on the list it was handed, then asks the same question again
+                        pb.step(c, k="mutate_result", ref=nid, tag="scribble", role="env", obj=fn["nextperm"])
+                        pb.step(c, k="call", obj=fn["nextperm"], name="__call__", args=args, kw={}, tag="nextperm:again", role="eager", fname="nextperm")
                 elif op.startswith("combink"):
                     l = rlist(rng, False)
                     p = rng.randint(1, max(1, len(l)))
@@ -165,8 +182,10 @@ class C20(Machine):
                         pb.plan["observe"].append([lo, ""])
                         args = [{"obj": lo}, s]
                         extra = {"lst": lo}
-                    pb.step(c, k="call", obj=fn[op], name="__call__", args=args, kw={}, tag="%s:n%d" % (op, len(items)), role="eager", fname=op, **extra)
+                    eid = pb.step(c, k="call", obj=fn[op], name="__call__", args=args, kw={}, tag="%s:n%d" % (op, len(items)), role="eager", fname=op, **extra)
                     repeat_pool.append((op, args))
+                    if rng.random() < 0.2:
+                        pb.step(c, k="mutate_result", ref=eid, tag="scribble", role="env", obj=fn[op])
                     if rng.random() < 0.5:
                         pb.step(c, k="call", obj=fn[op], name="__call__", args=args, kw={}, tag=op + ":again", role="eager", fname=op, **extra)
         plan = pb.finish(rng)
@@ -188,10 +207,14 @@ class C20(Machine):
         nontrivial = False
         fcount = {"abandon": [0, 0]}
         seen_calls = {}
+        cur_lists = {}
         for s in plan["steps"]:
             e = by_id[s["id"]]
             trace.append("%d:%s" % (s.get("c", 0), s.get("tag")))
             role = s.get("role")
+            if s.get("k") == "mutate" and role == "env":
+                cur_lists[str(s["obj"])] = s["val"]
+                continue
             if role in ("eager", "eager_permutk"):
                 fname = s["fname"]
                 args = s["args"]
@@ -203,7 +226,7 @@ class C20(Machine):
                     margs = [{"obj": 1}, s["kk"]]
                 elif "lst" in s:
                     # the pristine twin gets the list as the caller first built it
-                    objects.append({"kind": "value", "val": meta["lists"][str(s["lst"])]})
+                    objects.append({"kind": "value", "val": cur_lists.get(str(s["lst"]), meta["lists"][str(s["lst"])])})
                     margs = [{"obj": 1}] + list(args[1:])
                     probe("call_on_a_list_object_the_caller_keeps")
                 mini = {"objects": objects, "steps": [{"id": 1, "k": "call", "obj": 0, "name": "__call__", "args": margs,
@@ -213,7 +236,7 @@ class C20(Machine):
                 if bad:
                     vs.append(vio("differs_from_pristine", fname, s.get("tag", "").split(":")[0], s["id"],
                                   {"got": repr(e["out"])[:200], "pristine": repr(exp)[:200], "args": repr(args)[:120]}))
-                key = fname + repr(args)
+                key = fname + repr(args) + repr(cur_lists.get(str(s.get("lst")))) 
                 if key in seen_calls and role == "eager":
                     probe("repeated_identical_call")
                     if seen_calls[key] != e["out"] and fname in ("exactsum", "dynprog"):
@@ -333,7 +356,10 @@ class C20(Machine):
         fin = by_id.get(-1)
         if fin and fin.get("changed"):
             # nextperm returns its (mutated) argument by design: a later change of that is the caller's doing
+            scribbled = set(t.get("ref") for t in plan["steps"] if t.get("k") == "mutate_result")
             for sid in fin["changed"]:
+                if sid in scribbled:
+                    continue
                 stp = [s for s in plan["steps"] if s["id"] == sid]
                 if stp and (stp[0].get("fname") in ("permutk", "exactsum", "dynprog", "combink") or stp[0].get("role") == "pull"):
                     if "lst" in stp[0] and stp[0].get("fname") in ("exactsum", "dynprog"):
